@@ -83,8 +83,14 @@ def synthetic(rng):
     if rng.random() < 0.5: members += [('Thumbnails/thumbnail.png', b'thumb', 'image/png')]
     if rng.random() < 0.5: members += [('META-INF/documentsignatures.xml', '<x/>', 'text/xml')]
     if rng.random() < 0.5: members += [('Configurations2/', '', 'application/vnd.sun.xml.ui.configuration'), ('extra/blob.bin', b'\x00\xff', 'application/octet-stream')]
-    order = list(range(len(members) + 1)); rng.shuffle(order)
-    return P.make_package(members, manifest_order=order)
+    # some producers list the manifest itself and the mimetype file in the manifest
+    man = [('/', P.MT_TEXT)] + [(p_, mt_ if mt_ is not None else 'text/xml') for p_, d_, mt_ in members]
+    k = rng.random()
+    if k < 0.35: man.append(('META-INF/manifest.xml', 'text/xml'))
+    if 0.2 < k < 0.5: man.append(('mimetype', 'text/plain'))
+    if k > 0.8: man.append(('META-INF/', ''))
+    rng.shuffle(man)
+    return P.make_package(members, manifest=man)
 MIMEC = 'application/vnd.oasis.opendocument.chart'
 
 def reachable(root, d):
